@@ -41,12 +41,12 @@ def main():
     checks = []
     for pid in sorted(CHECKS):
         text, ref = CHECKS[pid]
-        evp = os.path.join(HERE, "evidence", pid + ".json")
-        cat = "exploration"
-        if os.path.exists(evp):
-            with open(evp) as f:
-                ev = json.load(f)
-            cat = ev["level"]
+        import sys
+
+        sys.path.insert(0, HERE)
+        from checks.common import LEVELS
+
+        cat = LEVELS[pid]
         if cat != "proof":
             text = text + " -- " + BOUNDED
         checks.append(
